@@ -1,8 +1,11 @@
 package c15
 
 import (
+	"fmt"
+	"strings"
 	"testing"
 
+	ir "verif/harness/internal/inputref"
 	"verif/harness/pbt"
 )
 
@@ -29,4 +32,77 @@ func dispatch() pbt.Dispatch {
 	return pbt.Dispatch{}.Add(forwardPart.Name, forwardPart.Handler()).WithProbes(probes())
 }
 
-func probes() pbt.Probes { return pbt.Probes{} }
+// ---- directed probes of the recorded findings ----------------------------------------------------
+
+var probeSchema = ir.Schema{
+	Scalars: []string{"JSON"},
+	Enums:   []ir.Enum{{Name: "E", Values: []string{"X", "Y"}}},
+	Inputs: []ir.Input{
+		{Name: "In", Fields: []ir.Field{{Name: "a", Type: "Int!"}, {Name: "d", Type: "E", Default: "X"}}},
+		{Name: "L", Fields: []ir.Field{{Name: "l", Type: "[String!]!", Default: `"x"`}}},
+	},
+	Echoes: []ir.Echo{
+		{Name: "fS", Arg: ir.Field{Name: "v", Type: "String"}},
+		{Name: "fF", Arg: ir.Field{Name: "v", Type: "Float"}},
+		{Name: "fFs", Arg: ir.Field{Name: "v", Type: "[Float]"}},
+		{Name: "fI", Arg: ir.Field{Name: "v", Type: "Int"}},
+		{Name: "fIs", Arg: ir.Field{Name: "v", Type: "[Int]"}},
+		{Name: "fIns", Arg: ir.Field{Name: "v", Type: "[In]"}},
+		{Name: "fJ", Arg: ir.Field{Name: "v", Type: "JSON"}},
+		{Name: "fL", Arg: ir.Field{Name: "v", Type: "L"}},
+	},
+}
+
+// probeCase: one field `echo(v: arg)`, optional variable declarations, variables text.
+func probeCase(echo, arg, vars string, decls ...ir.VarDecl) Case {
+	fu := FieldUse{Key: echo, Echo: echo, Arg: arg, Mode: "literal"}
+	if strings.HasPrefix(arg, "$") {
+		fu.Mode = "variable"
+	}
+	c := Case{Schema: probeSchema, Decls: decls, Fields: []FieldUse{fu}, VarsForm: "absent"}
+	c.Query = "query" + ir.VarDefsText(decls) + "{ " + sel(fu) + " }"
+	if vars != "" {
+		c.VarsForm, c.Vars = "object", vars
+	}
+	return c
+}
+
+func probeOf(id string, cases ...Case) pbt.ProbeDef {
+	return pbt.ProbeDef{Input: cases, Fn: func() string {
+		var out []string
+		for _, c := range cases {
+			v := checkCase(c, &pbt.Rec{})
+			m := v.Msg
+			for _, cut := range []string{"\nschema:", "\nnormalized operation:", "\nbody:"} {
+				if i := strings.Index(m, cut); i >= 0 {
+					m = m[:i]
+				}
+			}
+			if v.Msg != "" && v.Finding == id {
+				out = append(out, fmt.Sprintf("%q %s => %s", c.Query, c.Vars, m))
+			}
+		}
+		return strings.Join(out, " | ")
+	}}
+}
+
+func probes() pbt.Probes {
+	const bs = "\\"
+	q3 := `"""`
+	return pbt.Probes{
+		fIntMin:   probeOf(fIntMin, probeCase("fI", intMin, "")),
+		fExp:      probeOf(fExp, probeCase("fF", "1e-5", ""), probeCase("fF", "1E+5", ""), probeCase("fFs", "[1e-5]", "")),
+		fBlockWs:  probeOf(fBlockWs, probeCase("fS", q3+" "+q3, "")),
+		fBlockEsc: probeOf(fBlockEsc, probeCase("fS", q3+"a"+bs+q3+"b"+q3, "")),
+		fVarDflt: probeOf(fVarDflt, probeCase("fIs", "[$x]", "{}", ir.VarDecl{Name: "x", Type: "Int", Default: "5"}),
+			probeCase("fIns", "[{a: $x}]", "{}", ir.VarDecl{Name: "x", Type: "Int!", Default: "5"})),
+		fNullDflt: probeOf(fNullDflt, probeCase("fIs", "$x", "{}", ir.VarDecl{Name: "x", Type: "[Int]", Default: "null"})),
+		fShift: probeOf(fShift, probeCase("fIns", "[null, {a: 1}]", ""),
+			probeCase("fIns", "$x", `{"x":[null,{"a":1}]}`, ir.VarDecl{Name: "x", Type: "[In]"})),
+		fSingle:  probeOf(fSingle, probeCase("fL", "$x", `{"x":{}}`, ir.VarDecl{Name: "x", Type: "L"})),
+		fBrace:   probeOf(fBrace, probeCase("fS", `"`+bs+`u{1F600}"`, "")),
+		fRawTab:  probeOf(fRawTab, probeCase("fJ", "{g: \"\t\"}", ""), probeCase("fS", "\"a\tb\"", "")),
+		fBlockQ:  probeOf(fBlockQ, probeCase("fS", q3+`" a`+q3, ""), probeCase("fS", q3+` ""`+"\t"+q3, "")),
+		fBlockBs: probeOf(fBlockBs, probeCase("fS", q3+bs+bs+q3+" "+q3, "")),
+	}
+}
